@@ -27,7 +27,7 @@ package bfe_module
 
 //@ func (*HandlerList).FilterAccept
 //@   props C48
-//@   requires hl != nil && hl.handlers != nil
+//@   requires hl != nil
 //@   frame FilterAccept keeps hl.handlers, any list.Element.Value
 //@   note the handler list is assumed not to be modified while its filters run (lists are built at start-up)
 //@   modifies *
@@ -45,7 +45,7 @@ package bfe_module
 
 //@ func (*HandlerList).FilterRequest
 //@   props C48
-//@   requires hl != nil && hl.handlers != nil
+//@   requires hl != nil
 //@   frame FilterRequest keeps hl.handlers, any list.Element.Value
 //@   modifies *
 //@   let l := old(hl.handlers)
@@ -62,7 +62,7 @@ package bfe_module
 
 //@ func (*HandlerList).FilterForward
 //@   props C48
-//@   requires hl != nil && hl.handlers != nil
+//@   requires hl != nil
 //@   frame FilterForward keeps hl.handlers, any list.Element.Value
 //@   modifies *
 //@   let l := old(hl.handlers)
@@ -78,7 +78,7 @@ package bfe_module
 
 //@ func (*HandlerList).FilterResponse
 //@   props C48
-//@   requires hl != nil && hl.handlers != nil
+//@   requires hl != nil
 //@   frame FilterResponse keeps hl.handlers, any list.Element.Value
 //@   modifies *
 //@   let l := old(hl.handlers)
@@ -94,7 +94,7 @@ package bfe_module
 
 //@ func (*HandlerList).FilterFinish
 //@   props C48
-//@   requires hl != nil && hl.handlers != nil
+//@   requires hl != nil
 //@   frame FilterFinish keeps hl.handlers, any list.Element.Value
 //@   modifies *
 //@   let l := old(hl.handlers)
